@@ -173,7 +173,7 @@ impl Prop for C06 {
         ]
     }
     fn cases(&self, tier: Tier) -> u32 {
-        tier.pick(450, 5000)
+        tier.pick(1200, 5000)
     }
     fn min_nontrivial(&self, tier: Tier) -> usize {
         tier.pick(100, 1000)
